@@ -11,7 +11,7 @@
 From Coq Require Import ZArith List Bool.
 From Nice Require Import Stream.StreamBase Stream.StreamProofs
   Stream.TurnTcpModel Stream.TurnTcpProofs Stream.TcpQueueModel Stream.TcpQueueProofs
-  Stream.PsslModel Stream.PsslProofs Stream.Socks5Model Stream.Socks5Proofs Stream.HttpModel Stream.HttpProofs.
+  Stream.PsslModel Stream.PsslProofs Stream.Socks5Model Stream.Socks5Proofs Stream.HttpModel Stream.HttpProofs Stream.HttpSegProofs.
 Import ListNotations.
 Local Open Scope Z_scope.
 
@@ -59,6 +59,13 @@ Theorem C17_tunnel_transparent_turn_google : forall bufs cs,
   0 < lenZ (concat bufs) <= 65535 -> concat cs = turn_frame GOOGLE bufs ->
   vis vis_msg (snd (run turn_body (alive (turn_init GOOGLE)) cs)) = [OMsg (concat bufs) (-1)].
 Proof. exact turn_roundtrip_google. Qed.
+
+(** ... and in the RFC 5766 / draft-9 modes, where the layer adds only padding: a STUN message or ChannelData frame
+    whose own length field is consistent ([rfc_consistent]) is delivered whole, with its padding *)
+Theorem C17_tunnel_transparent_turn_rfc5766 : forall c bufs cs, is_rfc c = true ->
+  rfc_consistent (concat bufs) -> lenZ (turn_frame c bufs) <= 65536 -> concat cs = turn_frame c bufs ->
+  vis vis_msg (snd (run turn_body (alive (turn_init c)) cs)) = [OMsg (turn_frame c bufs) (-1)].
+Proof. exact turn_roundtrip_rfc. Qed.
 
 (** * (5) the TCP send queue *)
 
@@ -202,6 +209,7 @@ Proof. vm_compute. split; reflexivity. Qed.
 
 Definition HTTP_OK : list Z := [72; 84; 84; 80; 47; 49; 46; 48; 32; 50; 48; 48; 32; 79; 75; 13; 10; 13; 10].
 Definition HTTP_CL_HEAD : list Z := [72; 84; 84; 80; 47; 49; 46; 48; 32; 50; 48; 48; 32; 79; 75; 13; 10; 67; 111; 110; 116; 101; 110; 116; 45; 76; 101; 110; 103; 116; 104; 58; 32; 51].
+Definition HTTP_REPLY_CL : list Z := [72; 84; 84; 80; 47; 49; 46; 49; 32; 50; 48; 48; 32; 79; 75; 13; 10; 86; 105; 97; 58; 32; 120; 13; 10; 67; 111; 110; 116; 101; 110; 116; 45; 76; 101; 110; 103; 116; 104; 58; 32; 51; 13; 10; 13; 10; 97; 98; 99].
 Definition HTTP_CL_TAIL : list Z := [13; 10; 13; 10; 97; 98; 99].
 
 (** bytes that follow the proxy reply in the same read are lost (handed over with message->length unset) ... *)
@@ -227,6 +235,45 @@ Proof.
   exists [[72; 84; 84; 80; 47; 49; 46; 48; 32; 50; 48; 48; 32; 79; 75; 13; 10; 88; 45; 76; 111; 110; 103; 58; 32] ++ repZ 113 1100 ++ [13; 10; 13; 10]; [1; 2]], 190, 13.
   vm_compute. discriminate.
 Qed.
+
+(** Segmentation independence for every delivery that stays off the three defective paths ([clean] = no
+    [Mark]: 1 = the Content-Length digit loop read the slot past recv_buf_fill, 2 = the ring was grown while
+    wrapped, 3 = bytes followed the reply in the same read).  [http_spec q T] is a function of the byte
+    stream alone (the reply parser run over the whole stream as a list; [q] = sends queued before the
+    handshake): what is seen upward and downward, and whether the socket is alive.  Every clean chunking of
+    [T] yields exactly that — hence any two clean chunkings of the same stream agree, in particular a clean
+    chunked delivery and a clean one-chunk delivery. *)
+Theorem C17_seg_independent_http_except_defects : forall G q cs,
+  clean (snd (run (http_body G) (alive (http_start q)) cs)) = true ->
+  vis vis_str (snd (run (http_body G) (alive (http_start q)) cs)) = fst (http_spec q (concat cs)) /\
+  dead (fst (run (http_body G) (alive (http_start q)) cs)) = snd (http_spec q (concat cs)).
+Proof. exact http_seg_independent. Qed.
+
+Corollary C17_seg_independent_http_two_chunkings : forall G q cs cs', concat cs = concat cs' ->
+  clean (snd (run (http_body G) (alive (http_start q)) cs)) = true ->
+  clean (snd (run (http_body G) (alive (http_start q)) cs')) = true ->
+  vis vis_str (snd (run (http_body G) (alive (http_start q)) cs)) =
+  vis vis_str (snd (run (http_body G) (alive (http_start q)) cs')) /\
+  dead (fst (run (http_body G) (alive (http_start q)) cs)) = dead (fst (run (http_body G) (alive (http_start q)) cs')).
+Proof.
+  intros G q cs cs' E C C'. destruct (http_seg_independent G q cs C) as [A B].
+  destruct (http_seg_independent G q cs' C') as [A' B']. rewrite A, B, A', B', E. split; reflexivity.
+Qed.
+
+(** the specification is the intended meaning: reply, body skipped, the rest is tunnelled (also the bytes
+    that follow the reply directly — the ones the code loses) *)
+Example C17_http_spec_example :
+  http_spec [[9]] (HTTP_REPLY_CL ++ [1; 2]) = ([ODn [9]; OByte 1; OByte 2], 0) /\
+  http_spec [] (HTTP_OK ++ [7]) = ([OByte 7], 0) /\
+  snd (http_spec [] [72; 84; 84; 80; 47; 49; 46; 49; 32; 52; 48; 55; 32; 120; 13; 10]) = 1.
+Proof. vm_compute. repeat split; reflexivity. Qed.
+
+(** non-vacuity: a chunked delivery that cuts inside the status line, a header and the body is clean *)
+Example C17_http_seg_nonvacuous :
+  let cs := [takeZ 5 HTTP_REPLY_CL; takeZ 20 (dropZ 5 HTTP_REPLY_CL); dropZ 25 HTTP_REPLY_CL; [1]; [2]] in
+  clean (snd (run (http_body 190) (alive (http_start [[9]])) cs)) = true /\
+  vis vis_str (snd (run (http_body 190) (alive (http_start [[9]])) cs)) = [ODn [9]; OByte 1; OByte 2].
+Proof. vm_compute. split; reflexivity. Qed.
 
 Theorem C17_tunnel_transparent_http : forall G s cs rel bufs, h_state s = HT_CONNECTED -> h_base s = true ->
   fst (run (http_body G) (alive s) cs) = alive s /\
